@@ -979,7 +979,7 @@ registry! {
     ZeroPD: ZeroP;
     Z32D: Z32;
     EnumZD: EnumZ;
-    DeepA: DeepS<Vec<u64>, Vec<String>>;
+    DeepA: DeepS<Vec<u64>, Vec<String>> { escape = |c| { let r: &'static [u64] = c.a; slice_escape_deref(r).map(|(a, l, _)| (a, l, "field-copy")) } };
     DeepB: DeepS<Vec<ZeroP>, Option<Vec<u16>>>;
     DeepC: DeepS<EnumD<Vec<u8>>, Bound<String>>;
     DeepD: DeepS<Vec<u16>, Vec<u128>>;
